@@ -286,7 +286,7 @@ def main():
                     "independence); non-trivial = histories that diverge after the copy")
     for s in sts[:2]:
         chk.sample({"hist": [[h["side"], h["o"]["op"], h["o"]["a"], h["o"]["b"]] for h in s["hist"]]})
-    chk.assume("TLC", "View.delete_trainables histories avoided (known findings F18/F19 are C19's business)")
+    chk.assume("TLC")
     return chk.finish()
 
 
